@@ -99,7 +99,8 @@ def check_eval(case, rec, distinct=False):
                 must = True
         # a decimal point with no digit on either side is no token of the grammar at all
         digits = '0123456789'
-        lone = any(c == '.' and (i == 0 or text[i - 1] not in digits) and (i + 1 >= len(text) or text[i + 1] not in digits) for i, c in enumerate(text))
+        # (decimal digits of other scripts count as digits here: whether they are is not stated, so nothing is demanded of texts that need them)
+        lone = any(c == '.' and (i == 0 or not text[i - 1].isdecimal()) and (i + 1 >= len(text) or not text[i + 1].isdecimal()) for i, c in enumerate(text))
         if lone:
             must = True
         if must and not isinstance(exc, MathExpressionException):
@@ -313,6 +314,12 @@ def run(ctx):
     E = ctx.pick(5, 6)
     ctx.run_parallel('shard_extract', extra=(E,))
     ctx.exhaustive('every string of length ≤ %d over `1.+() a]` × every position × {default, lookAhead off, whitespace off} (extract)' % E)
+    # characters that str.isdigit()/isnumeric() accept but that are no decimal digits (superscripts, circled digits), and decimal digits of other
+    # scripts: nothing but the parse error may escape, and extract() must not report them as part of an expression
+    DL = ['1', '²', '①', '٣', '+', '(', ')', ' ', '.']
+    ctx.run_cases('eval', ({'expr': t} for t in core.all_strings(DL, 4) if any(ord(c) > 127 for c in t)))
+    ctx.run_cases('extract', ({'text': t, 'pos': p, 'opt': None} for t in core.all_strings(DL, 3) if any(ord(c) > 127 for c in t) for p in range(len(t) + 1)))
+    ctx.exhaustive('every string of length ≤ 4 (evaluate) / ≤ 3 × every position (extract) over `1 ² ① ٣ + ( ) space .` that contains a non-ASCII digit-like character')
     ctx.run_parallel('shard_random', extra=(ctx.pick(1500, 20000),))
     ctx.run_hypothesis('eval', st.text(alphabet=A.MATH + ['3', '0', '\t'], max_size=30).map(lambda s: {'expr': s}), ctx.pick(2000, 30000))
     soup = st.lists(st.sampled_from(['1', '2', '.5', '10', '(1)', '(2)', '()', '(', ')', ')(', '+', '-', '*', '/', '\\', ' ', '.']), min_size=1, max_size=12).map(lambda l: {'expr': ''.join(l)})
